@@ -7,6 +7,18 @@
   returns the final process state and the trace `(event, outcome)`.  An event that cannot happen at that point (the
   thread does not exist, is blocked, or has finished) leaves the state unchanged and is recorded with the outcome
   `dead` / `blocked`, so every theorem below holds for *all* lists of events without an enabledness side condition.
+
+  How the theorems are tied to /repo (audit item 2).  `step` hands a local operation of thread `t` the component
+  `g.thr t` — that is the model of "per-thread state is reached only through `current(Thread)`", so `C13_frame`,
+  `C13_teardown_own`, `C13_join` and `C13_mutex` *read back* the shape of `step` (frame = case split of its definition,
+  join = its guard `phase = done`, mutex = invariant of the `holder` guard).  What makes that shape a fact about the
+  code is (a) `C13_source_shape_as_modelled`: the text of every function through which Thread.c / GC.c / Exception.c /
+  Alloc.c reach per-thread state is extracted on every run (translate/g_thr.py) and must be the text the model was
+  written against, (b) the two places where the code does NOT have that shape are modelled as what they are:
+  `GC_Recurse` → `Thread_Mark` walks the thread-local table of *any* Thread object the mark phase meets
+  (`foreignMarks`, switched by `CelloGen.Thr.threadMarkUnguarded`, which is read from `Thread_Mark`, the `Mark` instance
+  of `Thread` and the dispatch in `GC_Recurse`), and `Thread_Del` frees that table (`wrapperKilled`); the theorems that
+  need it carry the hypothesis `Isolated` and are refuted without it, (c) the correspondence runs on real threads.
 -/
 import CelloProofs.Lemmas.Thr
 import CelloProofs.Lemmas.ThrCounter
@@ -16,19 +28,24 @@ import CelloGen.Thr
 
 namespace Cello.Thr
 
-/-- **Frame.** Whatever one thread does — allocate, collect, throw, catch, set thread-local values, lock, join — the
-    component of every *other* thread `u` (its collector registry, exception record, thread-local table, ledger of
-    finalised objects, published cell) is untouched.  The only thing another thread can do to `u` is to start it
-    (`spawn`: phase `unborn` → `ready`, or `done` → `ready` when a joined Thread object is called again; nothing else changes). -/
+/-- **Frame (writes).** Whatever one thread does — allocate, collect, throw, catch, set thread-local values, lock, join,
+    make Thread objects — the component of every *other* thread `u` (its collector registry, exception record,
+    thread-local table, ledger of finalised objects, published cells) is not written.  The only thing another thread
+    can do to `u` is to start it (`spawn`: phase `unborn` → `ready`, or `done` → `ready` when a joined Thread object is
+    called again; nothing else changes).
+    Read back from `step` (see the header).  It is a statement about *writes*: a collection of `e.tid` does **read**
+    `u`'s thread-local table when it reaches `u`'s Thread object (`foreignMarks`) — what that does to the reader is the
+    subject of `C13_noninterference` and its hypothesis `Isolated`; and a sweep that would free the Thread object of a
+    live `u` is the outcome `ub` (not executed, `wrapperKilled`). -/
 theorem C13_frame (cfg : Cfg) (g : G) (e : Ev) (u : Tid) (hu : e.tid ≠ u) :
     (step cfg g e).1.thr u = g.thr u ∨
     ((∃ t, e = .spawn t u) ∧ ((g.thr u).phase = .unborn ∨ (g.thr u).phase = .done) ∧
       (step cfg g e).1.thr u = { g.thr u with phase := .ready }) := by
   cases e with
   | loc t op =>
-    left; rw [step_loc]
+    left
     have : u ≠ t := fun h => hu (by simp [Ev.tid, h])
-    simp [upd_other _ _ _ _ this]
+    exact step_loc_other cfg g t op u this
   | spawn t v =>
     rcases step_spawn cfg g t v with ⟨_, hph, hthr⟩ | ⟨_, hg⟩
     · by_cases hvu : v = u
@@ -44,47 +61,102 @@ theorem C13_frame (cfg : Cfg) (g : G) (e : Ev) (u : Tid) (hu : e.tid ≠ u) :
   | ld t c => left; rw [(step_sync_frame cfg g (.ld t c) (by intros; simp) (by intros; simp)).1]
   | st t c => left; rw [(step_sync_frame cfg g (.st t c) (by intros; simp) (by intros; simp)).1]
   | rd t w => left; rw [(step_sync_frame cfg g (.rd t w) (by intros; simp) (by intros; simp)).1]
+  | bind t w => left; rw [(step_sync_frame cfg g (.bind t w) (by intros; simp) (by intros; simp)).1]
+  | rdo t w => left; rw [(step_sync_frame cfg g (.rdo t w) (by intros; simp) (by intros; simp)).1]
 
 /-- **The shared class cache is transparent.** Whatever the cache contains (whatever other threads looked up before, in
     whatever order) a lookup returns the declared instance, and the cache keeps holding declared instances only. -/
-theorem C13_cache_transparent (cfg : Cfg) (c : Cache) (hc : CacheOK cfg c) (t : Tid) (ty cls : Nat) (ts : TS)
+theorem C13_cache_transparent (cfg : Cfg) (c : Cache) (hc : CacheOK cfg c) (t : Tid) (fm : List Obj) (ty cls : Nat) (ts : TS)
     (hr : ts.phase = .running) :
-    (lstep cfg t c (.lookup ty cls) ts).2.2 = .bool (cfg.scan (ty, cls)) ∧
-    (lstep cfg t c (.lookup ty cls) ts).1 = ts ∧ CacheOK cfg (lstep cfg t c (.lookup ty cls) ts).2.1 := by
-  have h := lstep_spec hc t (.lookup ty cls) ts
+    (lstep cfg t c fm (.lookup ty cls) ts).2.2 = .bool (cfg.scan (ty, cls)) ∧
+    (lstep cfg t c fm (.lookup ty cls) ts).1 = ts ∧ CacheOK cfg (lstep cfg t c fm (.lookup ty cls) ts).2.1 := by
+  have h := lstep_spec hc t fm (.lookup ty cls) ts
   simp only [lstepSpec, hr, if_true] at h
   have h1 := congrArg Prod.fst h.1
   have h2 := congrArg Prod.snd h.1
   exact ⟨h2, h1, h.2⟩
 
-/-- **C13 non-interference.** For every schedule `s` (any number of threads, any interleaving), from every process state
-    whose class cache is valid, and for every thread `u`: the final component of `u` and the outcomes of all its local
-    operations are exactly those of `u` running **alone** — executing only the projection of the execution onto `u` (its
-    own local operations, and the moment it was spawned) with a private class cache `c0` — whatever the other threads
-    did in between. -/
-theorem C13_noninterference (cfg : Cfg) (s : List Ev) (g : G) (hc : CacheOK cfg g.cache) (u : Tid)
-    (c0 : Cache) (hc0 : CacheOK cfg c0) :
+/-- **C13 non-interference.** For every schedule `s` (any number of threads, any interleaving) that keeps the threads
+    **isolated** — `Isolated cfg s g`: at every step, the mark phase of a collection meets the collector-managed Thread
+    object (`var x = new(Thread, f)`) of no thread that is running or has thread-local values, and no sweep frees the
+    Thread object of a live thread; decidable, evaluated on the schedule — from every process state whose class cache is
+    valid, and for every thread `u`: the final component of `u` and the outcomes of all its local operations are exactly
+    those of `u` running **alone** — executing only the projection of the execution onto `u` (its own local operations,
+    and the moment it was spawned) with a private class cache `c0` — whatever the other threads did in between.
+    Without `Isolated` the statement is false of the model and of the code: `C13_noninterference_refuted`,
+    KF-C13-mark-foreign-tls. -/
+theorem C13_noninterference (cfg : Cfg) (s : List Ev) (g : G) (hc : CacheOK cfg g.cache) (hiso : Isolated cfg s g = true)
+    (u : Tid) (c0 : Cache) (hc0 : CacheOK cfg c0) :
     (run cfg s g).1.thr u = (solo cfg u (proj u (run cfg s g).2) c0 (g.thr u)).1 ∧
     localOuts u (run cfg s g).2 = (solo cfg u (proj u (run cfg s g).2) c0 (g.thr u)).2 := by
-  have h := run_proj cfg u s g hc
+  have h := run_proj cfg u s g hc hiso
   rw [solo_eq_spec cfg u _ c0 _ hc0]
   exact ⟨h.1, h.2.1⟩
 
 /-- the same from process start: main thread running, every other thread unborn, empty class cache -/
-theorem C13_noninterference_from_start (cfg : Cfg) (s : List Ev) (u : Tid) :
+theorem C13_noninterference_from_start (cfg : Cfg) (s : List Ev) (hiso : Isolated cfg s G.init = true) (u : Tid) :
     (run cfg s G.init).1.thr u = (solo cfg u (proj u (run cfg s G.init).2) [] (G.init.thr u)).1 ∧
     localOuts u (run cfg s G.init).2 = (solo cfg u (proj u (run cfg s G.init).2) [] (G.init.thr u)).2 :=
-  C13_noninterference cfg s G.init (cacheOK_nil cfg) u [] (cacheOK_nil cfg)
+  C13_noninterference cfg s G.init (cacheOK_nil cfg) hiso u [] (cacheOK_nil cfg)
 
-/-- **Two executions that agree on `u`'s projection agree on `u`.** Any two schedules — different numbers of threads,
-    different interleavings, different things done by the others — in which `u` itself performs the same operations
-    give `u` the same final component and the same outcomes. -/
+/-- the full statement of the property's first sentence: non-interference for *every* schedule -/
+def C13_noninterference_statement (cfg : Cfg) : Prop :=
+  ∀ (s : List Ev) (u : Tid),
+    (run cfg s G.init).1.thr u = (solo cfg u (proj u (run cfg s G.init).2) [] (G.init.thr u)).1 ∧
+    localOuts u (run cfg s G.init).2 = (solo cfg u (proj u (run cfg s G.init).2) [] (G.init.thr u)).2
+
+/-- the mark phase as it is in /repo (`Thread_Mark` walks the table of any Thread object; the value of
+    `CelloGen.Thr.threadMarkUnguarded` on the unchanged tree), written out so that the refutation below does not
+    depend on what the translator reads after a repair -/
+def cfgMark : Cfg := { gcFirst := true, consume := true, maxDepth := 2048, scan := fun _ => false, foreignMark := true }
+
+/-- the documented usage: main allocates an object, makes a Thread object `var x = new(Thread, f)`, calls it; the
+    worker sets a thread-local value (here: to main's object); main, whose stack holds only `x`, collects -/
+def witnessMark : List Ev :=
+  [.loc 0 (.new 1 false false), .loc 0 (.new (thrBase + 1) false false), .bind 0 1, .spawn 0 1, .loc 1 .begin_,
+   .loc 1 (.tset "a" ⟨0, 1⟩), .loc 0 (.collect [thrBase + 1])]
+
+/-- **Refuted without `Isolated` (KF-C13-mark-foreign-tls).** In `witnessMark` the outcome of *main's* collection
+    depends on what the *worker* put into its thread-local table: main's mark phase reaches `x`, `GC_Recurse` calls
+    `Thread_Mark(x)`, which walks the worker's table — main's object survives, whereas main alone finalises it.  So
+    "whatever one thread does (set thread-local values) … each thread computes the same results as when it runs
+    alone" fails.  In C the walk is, on top of that, an unsynchronised read of a table the worker is rewriting: main's
+    `new` raises ValueError or reads freed memory (reproduced, TSan: Table_Mark vs Table_Rehash). -/
+theorem C13_noninterference_refuted : ¬ C13_noninterference_statement cfgMark := by
+  intro h
+  have h0 := (h witnessMark 0).2
+  revert h0
+  decide
+
+/-- the two outcomes side by side: in the schedule main's collection finalises nothing, alone it finalises object 0.1;
+    the schedule is not `Isolated`, and it is counted as a race (the walked table belongs to a running thread) -/
+theorem C13_mark_foreign_tls_witness :
+    (localOuts 0 (run cfgMark witnessMark G.init).2).map Out.show = ["ok", "ok", "fin=[] garbage=0"] ∧
+    (solo cfgMark 0 (proj 0 (run cfgMark witnessMark G.init).2) [] (G.init.thr 0)).2.map Out.show = ["ok", "ok", "fin=[1] garbage=0"] ∧
+    Isolated cfgMark witnessMark G.init = false ∧ races cfgMark witnessMark G.init = 1 := by decide
+
+/-- a schedule in which no Thread object is collector-managed (every `struct Thread` is `new_raw`, static, or the main
+    wrapper: no `bind` event) is isolated: no mark phase ever meets a Thread object -/
+theorem C13_isolated_without_managed_threads (cfg : Cfg) (s : List Ev) (h : ∀ e ∈ s, ∀ t u, e ≠ .bind t u) :
+    Isolated cfg s G.init = true :=
+  isolated_raw cfg s G.init rfl h
+
+/-- … so for such schedules non-interference holds with no further condition -/
+theorem C13_noninterference_raw (cfg : Cfg) (s : List Ev) (h : ∀ e ∈ s, ∀ t u, e ≠ .bind t u) (u : Tid) :
+    (run cfg s G.init).1.thr u = (solo cfg u (proj u (run cfg s G.init).2) [] (G.init.thr u)).1 ∧
+    localOuts u (run cfg s G.init).2 = (solo cfg u (proj u (run cfg s G.init).2) [] (G.init.thr u)).2 :=
+  C13_noninterference_from_start cfg s (C13_isolated_without_managed_threads cfg s h) u
+
+/-- **Two executions that agree on `u`'s projection agree on `u`.** Any two isolated schedules — different numbers of
+    threads, different interleavings, different things done by the others — in which `u` itself performs the same
+    operations give `u` the same final component and the same outcomes. -/
 theorem C13_schedule_independent (cfg : Cfg) (s1 s2 : List Ev) (u : Tid)
+    (h1 : Isolated cfg s1 G.init = true) (h2 : Isolated cfg s2 G.init = true)
     (hp : proj u (run cfg s1 G.init).2 = proj u (run cfg s2 G.init).2) :
     (run cfg s1 G.init).1.thr u = (run cfg s2 G.init).1.thr u ∧
     localOuts u (run cfg s1 G.init).2 = localOuts u (run cfg s2 G.init).2 := by
-  have h1 := C13_noninterference_from_start cfg s1 u
-  have h2 := C13_noninterference_from_start cfg s2 u
+  have h1 := C13_noninterference_from_start cfg s1 h1 u
+  have h2 := C13_noninterference_from_start cfg s2 h2 u
   rw [hp] at h1
   exact ⟨h1.1.trans h2.1.symm, h1.2.trans h2.2.symm⟩
 
@@ -131,10 +203,12 @@ theorem C13_counter_exact (cfg : Cfg) (m c : Nat) (s : List Ev) (hD : Disc cfg m
   have h := run_counter cfg m c s G.init (fun _ => false) (by intro t ht; cases ht) hD
   simpa [G.init] using h
 
-/-- **C13 join.** If `join u` returns (`joined`) at some point of a schedule, then thread `u` had finished
-    `Thread_Init_Run` (function and teardown) before, and in every continuation in which the Thread object is not
-    called again no event of `u` ever happens (each is recorded `dead`): every step of that run of `u` precedes the
-    return of `join u`. -/
+/-- **C13 join.** If `join u` returns `joined` (the outcome of a `pthread_join` that succeeded) at some point of a
+    schedule, then thread `u` had finished `Thread_Init_Run` (function and teardown) before, and in every continuation
+    in which the Thread object is not called again no event of `u` ever happens (each is recorded `dead`): every step of
+    that run of `u` precedes the return of `join u`.
+    Reads back the guard of `step` (`joined` only in phase `done`); that `Thread_Join` is `pthread_join` on the object's
+    own pthread and nothing else is `C13_source_shape_as_modelled` + the `c13-wrapper` oracle. -/
 theorem C13_join (cfg : Cfg) (s1 s2 : List Ev) (t u : Tid)
     (hj : (step cfg (run cfg s1 G.init).1 (.join t u)).2 = .joined)
     (hns : ∀ e ∈ s2, ∀ t', e ≠ .spawn t' u) :
@@ -144,11 +218,44 @@ theorem C13_join (cfg : Cfg) (s1 s2 : List Ev) (t u : Tid)
   refine ⟨hd, ?_⟩
   exact (run_done cfg u s2 hns _ (by rw [hthr]; exact hd)).2
 
-/-- **join publishes.** After `join u` has returned, every read of `u`'s published cell — by any thread, at any later
-    point of any continuation (until the Thread object is called again) — yields the value `u` had written last, which
-    is the value of `u`'s solo run; and `u`'s component (ledger of finalised objects, thread-local table …) is final:
-    nothing changes it any more. -/
-theorem C13_join_publishes (cfg : Cfg) (s1 s2 : List Ev) (t u : Tid)
+/-- the full statement of "join returns only after the thread's function has finished": whenever `join u` returns to
+    its caller having waited for a thread that was called (`joined`), or without waiting (`early`), `u` has finished -/
+def C13_join_statement (cfg : Cfg) : Prop :=
+  ∀ (s : List Ev) (t u : Tid),
+    ((step cfg (run cfg s G.init).1 (.join t u)).2 = .joined ∨ (step cfg (run cfg s G.init).1 (.join t u)).2 = .early) →
+    ((run cfg s G.init).1.thr u).phase = .done
+
+/-- **Refuted (KF-C13-join-edeadlk).** `join(current(Thread))`: `pthread_join` of the calling thread reports EDEADLK,
+    `Thread_Join` raises only for EINVAL and ESRCH (`C13_join_edeadlk_ignored`), so it returns at once — while the
+    thread's function is running (the caller is executing it). -/
+theorem C13_join_refuted (cfg : Cfg) : ¬ C13_join_statement cfg := by
+  intro h
+  have := h [] 0 0 (Or.inr (by simp [run, step, running, G.init, TS.main, wrapperGone]))
+  simp [run, G.init, TS.main] at this
+
+/-- `join` of the calling thread itself: returns at once (`early`), nothing changes -/
+theorem C13_join_self_returns_early (cfg : Cfg) (g : G) (t : Tid) (hr : running g t = true) (hw : wrapperGone g t = false) :
+    step cfg g (.join t t) = (g, .early) := by
+  simp [step, hr, hw]
+
+/-- **C13 join, partial: every join of *another* thread.** When `t ≠ u`, `join u` by `t` returns only as `joined` —
+    then `u` has finished — or as `nothread` (the Thread object was never called: there is no function to wait for).
+    Missing for the full statement: self-joins (refuted above); mutual joins are outside the model (a blocked `join` is
+    an event that does not happen; where the pthread implementation reports EDEADLK for them, `perr join EDEADLK` shows
+    `Thread_Join` returning normally — glibc 2.36 in this sandbox deadlocks instead). -/
+theorem C13_join_partial (cfg : Cfg) (s : List Ev) (t u : Tid) (htu : t ≠ u) :
+    (step cfg (run cfg s G.init).1 (.join t u)).2 ≠ .early ∧
+    ((step cfg (run cfg s G.init).1 (.join t u)).2 = .joined → ((run cfg s G.init).1.thr u).phase = .done) := by
+  refine ⟨?_, fun hj => (step_join_joined cfg _ t u hj).1⟩
+  simp only [step]
+  repeat' split
+  all_goals simp_all
+
+/-- **join publishes (values).** After `join u` has returned, every read of `u`'s published cell — by any thread, at
+    any later point of any continuation (until the Thread object is called again) — yields the value `u` had written
+    last, which (the schedule up to the join being isolated) is the value of `u`'s solo run; and `u`'s component (ledger
+    of finalised objects, thread-local table …) is final: nothing changes it any more. -/
+theorem C13_join_publishes (cfg : Cfg) (s1 s2 : List Ev) (t u : Tid) (hiso : Isolated cfg s1 G.init = true)
     (hj : (step cfg (run cfg s1 G.init).1 (.join t u)).2 = .joined)
     (hns : ∀ e ∈ s2, ∀ t', e ≠ .spawn t' u) :
     let g1 := (run cfg s1 G.init).1
@@ -157,7 +264,7 @@ theorem C13_join_publishes (cfg : Cfg) (s1 s2 : List Ev) (t u : Tid)
     (run cfg s2 (step cfg g1 (.join t u)).1).1.thr u = alone ∧
     ∀ eo ∈ (run cfg s2 (step cfg g1 (.join t u)).1).2, ∀ r, eo.1 = .rd r u → eo.2 = .num alone.pub ∨ eo.2 = .dead := by
   obtain ⟨hd, hthr⟩ := step_join_joined cfg _ t u hj
-  have hal := (C13_noninterference_from_start cfg s1 u).1
+  have hal := (C13_noninterference_from_start cfg s1 hiso u).1
   have hd' : (((step cfg (run cfg s1 G.init).1 (.join t u)).1).thr u).phase = .done := by rw [hthr]; exact hd
   refine ⟨hal, ?_, ?_⟩
   · rw [(run_done cfg u s2 hns _ hd').1, hthr]; exact hal
@@ -165,6 +272,48 @@ theorem C13_join_publishes (cfg : Cfg) (s1 s2 : List Ev) (t u : Tid)
     have := run_rd_frozen cfg u s2 hns _ hd' eo hmem r he
     rw [hthr, hal] at this
     exact this
+
+/-- **join publishes (objects the thread allocated).** After `join u` has returned, whoever dereferences the pointer `u`
+    stored into the joiner's Ref (`ref(out, o)`, `o` allocated by `u`) finds, at any later point of any continuation:
+    a live object iff `u`'s collector had not finalised `o` by the time `u` finished — and a dangling pointer otherwise.
+    Together with `C13_teardown_step` (the teardown finalises *every* non-root entry of `u`'s registry before
+    `Thread_Init_Run` returns): an object made with plain `new` by the thread is never usable by the joiner;
+    `new_root` / `new_raw` objects and values assigned into the joiner's own objects are. -/
+theorem C13_join_publishes_own_object (cfg : Cfg) (s1 s2 : List Ev) (t u : Tid)
+    (hj : (step cfg (run cfg s1 G.init).1 (.join t u)).2 = .joined)
+    (hns : ∀ e ∈ s2, ∀ t', e ≠ .spawn t' u)
+    (o : Obj) (hp : ((run cfg s1 G.init).1.thr u).pubo = some o) (ho : o.owner = u) :
+    ∀ eo ∈ (run cfg s2 (step cfg (run cfg s1 G.init).1 (.join t u)).1).2, ∀ r, eo.1 = .rdo r u →
+      eo.2 = (if ((run cfg s1 G.init).1.thr u).fin.contains o then .dangling o else .val o) ∨ eo.2 = .dead := by
+  obtain ⟨hd, hthr⟩ := step_join_joined cfg _ t u hj
+  have hd' : (((step cfg (run cfg s1 G.init).1 (.join t u)).1).thr u).phase = .done := by rw [hthr]; exact hd
+  intro eo hmem r he
+  have := run_rdo_frozen cfg u s2 hns _ hd' o (by rw [hthr]; exact hp) ho eo hmem r he
+  rw [hthr] at this
+  exact this
+
+/-- the full statement of "its effects are visible to the joiner" for a result object: after `join u`, the object `u`
+    published can be used -/
+def C13_join_publishes_statement (cfg : Cfg) : Prop :=
+  ∀ (s1 s2 : List Ev) (t u : Tid) (o : Obj),
+    (step cfg (run cfg s1 G.init).1 (.join t u)).2 = .joined → (∀ e ∈ s2, ∀ t', e ≠ .spawn t' u) →
+    ((run cfg s1 G.init).1.thr u).pubo = some o →
+    ∀ eo ∈ (run cfg s2 (step cfg (run cfg s1 G.init).1 (.join t u)).1).2, ∀ r, eo.1 = .rdo r u → eo.2 = .val o ∨ eo.2 = .dead
+
+/-- the worker allocates its result with `new`, hands the pointer to the joiner, returns; main joins and dereferences -/
+def witnessResult : List Ev :=
+  [.spawn 0 1, .loc 1 .begin_, .loc 1 (.new 1 false false), .loc 1 (.pubo ⟨1, 1⟩), .loc 1 .end_]
+
+/-- **Refuted (KF-C13-join-result-finalised).** The worker's teardown (`del_raw(gc)` in `Thread_Init_Run`: a sweep with
+    nothing marked) finalises the object before `pthread_join` can return: what the joiner holds is a dangling pointer
+    (in C: `deref(out)` → ValueError "bad magic number … already deallocated" / heap-use-after-free; reproduced). -/
+theorem C13_join_publishes_object_refuted : ¬ C13_join_publishes_statement cfgMark := by
+  intro h
+  have := h witnessResult [.rdo 0 1] 0 1 ⟨1, 1⟩ (by decide)
+    (by intro e he t'; simp only [List.mem_singleton] at he; subst he; simp) (by decide)
+    _ (by rw [run_cons]; exact List.mem_cons_self) 0 rfl
+  revert this
+  decide
 
 /-- **C13 teardown / own collector.** In every schedule, every object that thread `t`'s collector ever finalised — by
     `del`, by a collection, or by the teardown in `Thread_Init_Run` — and every object in its registry was allocated by
@@ -176,17 +325,24 @@ theorem C13_teardown_own (cfg : Cfg) (s : List Ev) (t : Tid) :
   exact ⟨h.2, h.1⟩
 
 /-- the teardown step itself: when thread `t`'s function returns, the epilogue of `Thread_Init_Run` finalises exactly the
-    non-root entries of `t`'s own registry, removes the collector and the exception record, and changes no other thread -/
+    non-root entries of `t`'s own registry, removes the collector and the exception record, and changes no other thread
+    (`hub`: the thread does not return while its registry still holds the Thread object `new(Thread, f)` of a thread
+    that is live — `Thread_Del` would free that thread's table under it) -/
 theorem C13_teardown_step (cfg : Cfg) (g : G) (t : Tid) (gc : GC)
-    (hr : (g.thr t).phase = .running) (hg : (g.thr t).gc = some gc) :
+    (hr : (g.thr t).phase = .running) (hg : (g.thr t).gc = some gc)
+    (hub : (step cfg g (.loc t .end_)).2 ≠ .ub) :
     let g' := (step cfg g (.loc t .end_)).1
     (g'.thr t).fin = (g.thr t).fin ++ (gc.reg.filter (fun e => !e.2)).map (·.1) ∧
     (g'.thr t).gc = none ∧ (g'.thr t).exc = none ∧ (g'.thr t).phase = .done ∧ (g'.thr t).tls = (g.thr t).tls ∧
     ∀ u, u ≠ t → g'.thr u = g.thr u := by
-  rw [step_loc]
-  simp only [upd_same, lstep, lrun, hr, hg, if_true]
-  have hsw : (gc.sweep []).2 = (gc.reg.filter (fun e => !e.2)).map (·.1) := by simp [GC.sweep]
-  split <;> (refine ⟨by simp [hsw], rfl, rfl, rfl, rfl, ?_⟩; intro u hu; simp [upd_other _ _ _ _ hu])
+  rw [step_loc] at hub ⊢
+  split at hub
+  · exact absurd rfl hub
+  · rename_i hk
+    rw [if_neg hk]
+    simp only [upd_same, lstep, lrun, hr, hg, if_true]
+    have hsw : (gc.sweep []).2 = (gc.reg.filter (fun e => !e.2)).map (·.1) := by simp [GC.sweep]
+    split <;> (refine ⟨by simp [hsw], rfl, rfl, rfl, rfl, ?_⟩; intro u hu; simp [upd_other _ _ _ _ hu])
 
 /-- **Destructors may use exceptions at teardown.** With the epilogue order of the current source (collector first,
     exception record second: `cfg.gcFirst`), no event of any schedule — no `del`, no collection and no thread teardown,
@@ -201,7 +357,7 @@ theorem C13_teardown_order_current_source : CelloGen.Thr.teardownGcFirst = true 
 /-- The order before commit 7de4bbc (exception record first) is refuted by a concrete schedule: a worker allocates one
     object whose destructor does try/throw/catch and returns — the teardown sweep finds no exception record. -/
 theorem C13_teardown_old_order_refuted :
-    let old : Cfg := { gcFirst := false, consume := true, maxDepth := 2048, scan := fun _ => false }
+    let old : Cfg := { gcFirst := false, consume := true, maxDepth := 2048, scan := fun _ => false, foreignMark := true }
     ((run old [.spawn 0 1, .loc 1 .begin_, .loc 1 (.new 1 false true), .loc 1 .end_] G.init).2.map (fun eo => eo.2.show))
       = ["spawned", "begun depth=0 gc=1 exc=1", "ok", "crash"] := by decide
 
@@ -211,38 +367,46 @@ theorem C13_foreign_del (cfg : Cfg) (s : List Ev) (t : Tid) (o : Obj) (ho : o.ow
     (step cfg (run cfg s G.init).1 (.loc t (.del o))).2 = .dead ∨
     (step cfg (run cfg s G.init).1 (.loc t (.del o))).2 = .raised .keyError := by
   have hown := (C13_teardown_own cfg s t).2
-  rw [step_loc]
-  simp only [lstep]
-  split
-  · simp only [lrun]
-    cases hg : ((run cfg s G.init).1.thr t).gc with
-    | none => right; right; rfl
-    | some g =>
-      left
-      have : g.reg.any (fun e => decide (e.1 = o)) = false := by
-        rw [List.any_eq_false]
-        intro e he
-        have := hown g hg e he
-        simp only [decide_eq_true_eq]
-        intro h
-        exact ho (by rw [← h]; exact this)
-      simp [GC.rem, this, runDtors]
-  · right; left; rfl
+  generalize (run cfg s G.init).1 = g at hown ⊢
+  have key : ∀ fm, (lstep cfg t g.cache fm (.del o) (g.thr t)).1.gc = (g.thr t).gc ∧
+      ((lstep cfg t g.cache fm (.del o) (g.thr t)).2.2 = .fin [] ∨ (lstep cfg t g.cache fm (.del o) (g.thr t)).2.2 = .dead ∨
+       (lstep cfg t g.cache fm (.del o) (g.thr t)).2.2 = .raised .keyError) := by
+    intro fm
+    simp only [lstep]
+    split
+    · simp only [lrun]
+      cases hg : (g.thr t).gc with
+      | none => exact ⟨hg, Or.inr (Or.inr rfl)⟩
+      | some gc =>
+        have : gc.reg.any (fun e => decide (e.1 = o)) = false := by
+          rw [List.any_eq_false]
+          intro e he
+          have := hown gc hg e he
+          simp only [decide_eq_true_eq]
+          intro h
+          exact ho (by rw [← h]; exact this)
+        simp [GC.rem, this, runDtors]
+    · exact ⟨rfl, Or.inr (Or.inl rfl)⟩
+  rw [step_loc, wrapperKilled_gc g t _ (key _).1]
+  simpa using (key _).2
 
-/-- **Exceptions are per thread.** In any process state, an exception program run by thread `t` (whose record has no
-    pending exception and room for the program's nesting) produces exactly the trace of the structured-exception
-    reference semantics (C07) — whatever the other threads' exception records contain — and touches no other thread. -/
+/-- **Exceptions are per thread.** In any process state, an exception program run by thread `t` (inside the object domain
+    of C07, catch filters duplicate-free; `t`'s record has no pending exception and room for the program's nesting)
+    produces exactly the trace of the structured-exception reference semantics (C07) — whatever the other threads'
+    exception records contain — and touches no other thread. -/
 theorem C13_exn_isolated (cfg : Cfg) (hcons : cfg.consume = true) (g : G) (t : Tid) (p : Exn.Prog) (s0 : Exn.St)
     (hr : (g.thr t).phase = .running) (he : (g.thr t).exc = some s0) (ha : s0.active = false)
-    (hn : s0.depth + Exn.nest p ≤ cfg.maxDepth) :
-    (∃ sg d, (step cfg g (.loc t (.exn p))).2 = .exn (Exn.eval p).1 sg d ∧ d = s0.depth ∧
-       (sg = .normal ↔ (Exn.eval p).2 = none)) ∧
+    (hn : s0.depth + Exn.nest p ≤ cfg.maxDepth) (hdom : Exn.inDomain p = true) (hnd : Exn.nodupFilters p = true) :
+    (∃ sg d, (step cfg g (.loc t (.exn p))).2 = .exn (Exn.eval p topBound).1 sg d ∧ d = s0.depth ∧
+       (sg = .normal ↔ (Exn.eval p topBound).2 = none)) ∧
     ∀ u, u ≠ t → (step cfg g (.loc t (.exn p))).1.thr u = g.thr u := by
-  have hC := Exn.C07_machine_refines_reference cfg.maxDepth p s0 ha hn
-  rw [step_loc]
-  refine ⟨?_, fun u hu => by simp [upd_other _ _ _ _ hu]⟩
-  simp only [lstep, lrun, hr, he, if_true, hcons]
-  rcases hev : Exn.eval p with ⟨tr, _ | e⟩
+  have hC := Exn.C07_machine_refines_reference cfg.maxDepth p topBound s0 ha hn (by decide) hdom hnd
+  refine ⟨?_, fun u hu => step_loc_other cfg g t (.exn p) u hu⟩
+  have hk : wrapperKilled g t (lstep cfg t g.cache (foreignMarks cfg g t (.exn p)) (.exn p) (g.thr t)).1 = false :=
+    wrapperKilled_gc g t _ (by simp [lstep, lrun, hr, he])
+  rw [step_loc, hk]
+  simp only [lstep, lrun, hr, he, if_true, hcons, Bool.false_eq_true, if_false]
+  rcases hev : Exn.eval p topBound with ⟨tr, _ | e⟩
   · rw [hev] at hC
     simp only [Exn.Agrees] at hC
     exact ⟨_, _, by rw [hC.1], hC.2.2.1, by simp [hC.2.1]⟩
@@ -266,6 +430,16 @@ theorem C13_error_translation :
     joinTr .einval = some .valueError ∧ joinTr .esrch = some .valueError :=
   ⟨rfl, rfl, rfl, rfl, rfl, rfl, rfl, rfl, rfl, rfl, rfl, rfl⟩
 
+/-- `Thread_Join` has no case for EDEADLK — neither in the model nor in the table extracted from the current source:
+    a `pthread_join` that reports a deadlock (the caller joins itself) makes `join` return normally -/
+theorem C13_join_edeadlk_ignored :
+    joinTr .edeadlk = none ∧ tableTr CelloGen.Thr.joinErr .edeadlk = none ∧
+    ∀ (c : Cache) (fm : List Obj) (ts : TS), ts.phase = .running →
+      (lstep cfgMark 0 c fm (.perr .join .edeadlk) ts).2.2 = .ok := by
+  refine ⟨rfl, by decide, ?_⟩
+  intro c fm ts hr
+  simp [lstep, lrun, hr, joinTr]
+
 /-! ### the model is about the source as it is now (regenerated from /repo on every run) -/
 
 /-- the functions the model mirrors — how per-thread state is reached (`Thread_Current`, `GC_Current`,
@@ -285,7 +459,8 @@ theorem C13_error_translation_current_source (e : Errno) :
 
 /-! ### non-vacuity: concrete schedules meet the hypotheses and exercise the interesting branches -/
 
-def cfgNow : Cfg := { gcFirst := CelloGen.Thr.teardownGcFirst, consume := CelloGen.Exn.catchConsumes, maxDepth := CelloGen.Exn.maxDepth, scan := fun k => k.1 = 1 }
+def cfgNow : Cfg := { gcFirst := CelloGen.Thr.teardownGcFirst, consume := CelloGen.Exn.catchConsumes, maxDepth := CelloGen.Exn.maxDepth, scan := fun k => k.1 = 1,
+                      foreignMark := CelloGen.Thr.threadMarkUnguarded }
 
 /-- two workers contend for Mutex 0: the second `lock` is blocked, the `trylock` fails, after the release the second
     thread gets in; no UB; thread 1 is inside exactly between its acquisition and its release -/
@@ -334,15 +509,83 @@ example :
 /-- the hypotheses of `C13_exn_isolated` hold for a running thread and a nested program -/
 example :
     let g := (run cfgNow [.spawn 0 1, .loc 1 .begin_, .loc 0 (.exn (.tryCatch (.throw 3) [] (.stmt 1)))] G.init).1
+    let p : Exn.Prog := .tryCatch (.tryCatch (.throw 1) [2] (.stmt 5)) [1] (.stmt 6)
     (g.thr 1).phase = .running ∧ (g.thr 1).exc = some Exn.St.init ∧ cfgNow.consume = true ∧
-    Exn.St.init.depth + Exn.nest (.tryCatch (.tryCatch (.throw 1) [2] (.stmt 5)) [1] (.stmt 6)) ≤ cfgNow.maxDepth := by decide
+    Exn.St.init.depth + Exn.nest p ≤ cfgNow.maxDepth ∧ Exn.inDomain p = true ∧ Exn.nodupFilters p = true := by decide
+
+/-- **`Isolated` is met by the documented usage** `var x = new(Thread, f); call(x); … join(x);` when the worker sets
+    no thread-local values and the creator does not collect between `call` and `join`: main makes the Thread object,
+    collects (the worker is unborn, its table empty), calls it, the worker allocates, churns, collects and returns, main
+    joins and collects again holding `x` (the worker is done, `__GC` / `__Exception` are gone from its table).
+    Every collection of main does meet the Thread object (`heldThreads` = [1]), no step is a race, and main's outcomes
+    are those of its solo run. -/
+def demoManaged : List Ev :=
+  [.loc 0 (.new 1 false false), .loc 0 (.new (thrBase + 1) false false), .bind 0 1, .loc 0 (.collect [1, thrBase + 1]),
+   .spawn 0 1, .loc 1 .begin_, .loc 1 (.new 1 false false), .loc 1 (.churn 3), .loc 1 (.collect []), .loc 1 .end_,
+   .join 0 1, .loc 0 (.churn 2), .loc 0 (.collect [thrBase + 1])]
+
+example :
+    Isolated cfgMark demoManaged G.init = true ∧ races cfgMark demoManaged G.init = 0 ∧
+    heldThreads (run cfgMark demoManaged G.init).1 0 [thrBase + 1] = [1] ∧
+    ((run cfgMark demoManaged G.init).2.map (fun eo => eo.2.show)) =
+      ["ok", "ok", "ok", "fin=[] garbage=0", "spawned", "begun depth=0 gc=1 exc=1", "ok", "ok", "fin=[1] garbage=3",
+       "fin=[1] garbage=3", "joined", "ok", "fin=[1] garbage=2"] ∧
+    localOuts 0 (run cfgMark demoManaged G.init).2 = (solo cfgMark 0 (proj 0 (run cfgMark demoManaged G.init).2) [] TS.main).2 := by
+  decide
+
+/-- both clauses of `quiet` are needed: a worker that has *finished* (and was joined) but left a thread-local value
+    behind still changes what main's collection finalises, through the Thread object main holds -/
+example :
+    let s : List Ev := [.loc 0 (.new 1 false false), .loc 0 (.new (thrBase + 1) false false), .bind 0 1, .spawn 0 1, .loc 1 .begin_,
+      .loc 1 (.tset "a" ⟨0, 1⟩), .loc 1 .end_, .join 0 1, .loc 0 (.collect [thrBase + 1])]
+    Isolated cfgMark s G.init = false ∧ races cfgMark s G.init = 0 ∧
+    (localOuts 0 (run cfgMark s G.init).2).map Out.show = ["ok", "ok", "fin=[] garbage=0"] ∧
+    (solo cfgMark 0 (proj 0 (run cfgMark s G.init).2) [] TS.main).2.map Out.show = ["ok", "ok", "fin=[1] garbage=0"] := by decide
+
+/-- **the proposed repair in the model.** With `Thread_Mark` marking only `current(Thread)`'s table
+    (`foreignMark := false`) the refuting schedule is isolated and main's outcomes are those of its solo run -/
+example :
+    let fixed : Cfg := { cfgMark with foreignMark := false }
+    Isolated fixed witnessMark G.init = true ∧
+    localOuts 0 (run fixed witnessMark G.init).2 = (solo fixed 0 (proj 0 (run fixed witnessMark G.init).2) [] TS.main).2 := by
+  decide
+
+/-- the sweep that would free the Thread object of a live thread is not executed (`ub`): a worker makes and calls a
+    Thread object and returns without joining it; the same teardown after the join is fine, and a later `call` / `join`
+    on the finalised Thread object is `ub` -/
+example :
+    ((run cfgMark [.spawn 0 1, .loc 1 .begin_, .loc 1 (.new (thrBase + 2) false false), .bind 1 2, .spawn 1 2, .loc 2 .begin_,
+                   .loc 1 .end_, .loc 2 .end_, .join 1 2, .loc 1 .end_, .spawn 0 2, .join 0 2] G.init).2.map (fun eo => eo.2.show))
+      = ["spawned", "begun depth=0 gc=1 exc=1", "ok", "ok", "spawned", "begun depth=0 gc=1 exc=1", "ub", "fin=[] garbage=0",
+         "joined", "fin=[] garbage=0", "ub", "ub"] := by decide
+
+/-- the hypothesis `hub` of `C13_teardown_step` holds for a worker that returns while it holds no Thread object -/
+example :
+    let g := (run cfgMark [.spawn 0 1, .loc 1 .begin_, .loc 1 (.new 1 false false)] G.init).1
+    (g.thr 1).phase = .running ∧ (step cfgMark g (.loc 1 .end_)).2 ≠ .ub := by decide
+
+/-- `C13_join_publishes_own_object`, both sides: a result made with `new` dangles after the join, one made with
+    `new_root` is live; the self-join returns `early` -/
+example :
+    ((run cfgMark (witnessResult ++ [.join 0 1, .rdo 0 1, .rdo 0 2]) G.init).2.map (fun eo => eo.2.show)).drop 5
+      = ["joined", "dangling=1.1", "noval"] ∧
+    ((run cfgMark [.spawn 0 1, .loc 1 .begin_, .loc 1 (.new 2 true false), .loc 1 (.pubo ⟨1, 2⟩), .join 1 1, .loc 1 .end_,
+                   .join 0 1, .rdo 0 1] G.init).2.map (fun eo => eo.2.show))
+      = ["spawned", "begun depth=0 gc=1 exc=1", "ok", "ok", "early", "fin=[] garbage=0", "joined", "val=1.2"] := by decide
 
 /-
   PARTIAL — what these theorems do not say (and the harness covers by running real threads under schedule noise):
   the model is sequentially consistent at operation granularity, so real data races, memory-model effects, the pthread
   implementation and signal delivery cannot be exhibited in it; a collection is modelled with an arbitrary marked
-  set (the conservative stack scan is not modelled).  The theorems are about the bookkeeping: per-thread state is
-  reached only through `current(Thread)`, the Mutex wrappers are a holder machine, `join` returns after the epilogue.
+  set (the conservative stack scan is not modelled).  In particular the walk of another thread's thread-local table
+  by the mark phase is an atomic read here (its *logical* effect — which objects survive — is modelled, and is what
+  refutes non-interference), whereas in C it is a data race with the owner's `Table_Set` / `Table_Rem` / rehash
+  (`races` counts the steps where it would be one; the harness keeps free-running schedules at `races = 0` and runs the
+  witness in a forked child).  Known findings, each with its full statement kept as a `def …_statement` and refuted:
+  KF-C13-mark-foreign-tls (`C13_noninterference_refuted`), KF-C13-join-result-finalised
+  (`C13_join_publishes_object_refuted`), KF-C13-join-edeadlk (`C13_join_refuted`).  Not modelled: Thread objects as
+  thread-local values, `Thread_Assign` (copies another thread's table), arguments handed to a thread (`Thread_Call`
+  stores a raw copy of the tuple; the objects it refers to are not marked by anybody), mutual joins.
 -/
 
 end Cello.Thr
